@@ -201,14 +201,14 @@ fn instantiate_struct_field_ty(
 
     if let Some((_, ty)) = struct_def.fields.iter().find(|(fname, _)| fname == field) {
         Some(substitute_ty_params(ty, &subst))
-    } else if field.0 == COMPLETION_PLACEHOLDER {
-        Some(tast::Ty::TUnit)
     } else {
         super::util::push_error(
             diagnostics,
             format!("Struct {} has no field {}", struct_def.name.0, field.0),
         );
-        None
+        // the word the editor queries put at the cursor is no field either; it only gets a type so
+        // that the rest of the text around the cursor is still inferred
+        (field.0 == COMPLETION_PLACEHOLDER).then_some(tast::Ty::TUnit)
     }
 }
 
